@@ -357,7 +357,10 @@ func (e *Engine) ensureInit(x *Exec, pkg *ssa.Package) {
 	saved := e.journal
 	savedOn := x.journalOn
 	x.journalOn = false
-	defer func() { e.journal = saved; x.journalOn = savedOn }()
+	// package initialisation happens before main: it belongs to no goroutine of a region under analysis
+	savedTask, savedSeg := x.task, x.hbSeg
+	x.task, x.hbSeg = 0, nil
+	defer func() { e.journal = saved; x.journalOn = savedOn; x.task, x.hbSeg = savedTask, savedSeg }()
 	x.callFunction(initFn, nil)
 }
 
